@@ -222,6 +222,16 @@ class Program:
                         self.exc_parent[q] = bq
                         changed = True
 
+    def find_local_const(self, rid):
+        """a constexpr / static const local of some loaded function, by declaration id"""
+        if not hasattr(self, '_local_consts'):
+            self._local_consts = {}
+            for fn in self.functions.values():
+                for x in astload.walk(fn):
+                    if x.get('kind') == 'VarDecl' and (x.get('constexpr') or x.get('storageClass') == 'static'):
+                        self._local_consts[x['id']] = x
+        return self._local_consts.get(rid)
+
     def record_fields(self, q):
         r = self.records[q]
         if 'fields' not in r:
@@ -974,6 +984,14 @@ class FnTranslator:
                 return '/*nullopt*/'
             if nm == 'ignore':
                 return '/*ignore*/'
+            vd = self.P.find_local_const(rid)
+            if vd is not None:
+                # a function-local static/constexpr constant referenced from a lambda (no capture needed): its initialiser
+                t = self.P.typeof(vd)
+                inits = [x for x in vd.get('inner', []) or [] if 'kind' in x and not x['kind'].endswith('Attr')]
+                if inits and t[0] in ('int', 'double', 'bool', 'float', 'enum'):
+                    self.hit('local-constant(inlined)')
+                    return '((%s)%s)' % (self.ctype(t), self._paren(self.ex(inits[0])))
             raise Unsupported('reference to external variable %s' % nm)
         if rd['kind'] in ('FunctionDecl', 'CXXMethodDecl'):
             return '/*fn:%s*/' % rd.get('name')
